@@ -51,15 +51,58 @@ NHEAD = 10          # ProgGen programs start with ten imports
 
 # ---------------------------------------------------------------- syntax helpers
 
-def render(stmts, rng):
-    """-> (text, lines) with lines[i] the 1-based line on which statement i starts"""
-    out, lines, ln = [], [], 1
-    for s in stmts:
-        t = gen.render_program([s], rng)
-        lines.append(ln)
+LAYOUTS = ["lines", "one", "groups", "split"]
+
+
+def split_points(t):
+    """offsets of the blank after a comma or an `=` outside string literals"""
+    out, q = [], False
+    for k, ch in enumerate(t):
+        if ch == '"':
+            q = not q
+        elif not q and ch == " " and k > 0 and t[k - 1] in ",=":
+            out.append(k)
+    return out
+
+
+def render(stmts, rng, layout="lines"):
+    """-> (text, spans): spans[i] = [first line, last line] (1-based) of statement i.
+    layout: 'lines' one statement per line; 'one' everything on one line; 'groups' 2..5 statements per line;
+    'split' statements broken across lines, the next statement starting on the line where the previous ends"""
+    texts = [gen.render_program([s], rng).rstrip("\n") for s in stmts]
+    seps = []
+    if layout == "groups":
+        left = 0
+    for k, t in enumerate(texts):
+        if layout == "lines":
+            seps.append("\n")
+        elif layout == "one":
+            seps.append(" ")
+        elif layout == "groups":
+            if left == 0:
+                left = rng.randint(2, 5)
+            left -= 1
+            seps.append("\n" if left == 0 else " ")
+        else:
+            pts = split_points(t) if "\n" not in t else []
+            if pts and rng.random() < 0.8:
+                for c in sorted(rng.sample(pts, min(len(pts), rng.choice([1, 1, 2]))), reverse=True):
+                    t = t[:c] + "\n  " + t[c + 1:]
+                texts[k] = t
+                seps.append(" ")
+            else:
+                seps.append(rng.choice([" ", " ", "\n"]))
+    out, spans, ln = [], [], 1
+    for t, sep in zip(texts, seps):
+        a = ln
         ln += t.count("\n")
-        out.append(t)
-    return "".join(out), lines
+        spans.append([a, ln])
+        ln += sep.count("\n")
+        out.append(t + sep)
+    text = "".join(out)
+    if not text.endswith("\n"):
+        text = text.rstrip(" ") + "\n"
+    return text, spans
 
 
 def map_expr(e, f):
@@ -142,11 +185,12 @@ def relation(kind, info, res):
         if res["prefix"].status != "ok":
             return None
         if v.status != "err" or v.kind != want:
-            return (kind + "-not-rejected", "expected diagnostic %s at line %d, got %s %s %s"
+            return (kind + "-not-rejected", "expected diagnostic %s at line %s, got %s %s %s"
                     % (want, info["line"], v.status, v.kind, v.loc))
-        if v.loc is None or v.loc[0] != info["line"]:
-            return (kind + "-line", "diagnostic %s reported at %s, the offending statement is on line %d"
-                    % (want, v.loc, info["line"]))
+        lo, hi = info["line"] if isinstance(info["line"], (list, tuple)) else (info["line"], info["line"])
+        if v.loc is None or not (lo <= v.loc[0] <= hi):
+            return (kind + "-line", "diagnostic %s reported at %s, the offending statement is on lines %d..%d"
+                    % (want, v.loc, lo, hi))
         p = res["prefix"]
         if v.pcap != p.pcap:
             return (kind + "-partial-output", "output kept after the diagnostic differs from the output of the statements "
@@ -163,7 +207,7 @@ def relation(kind, info, res):
             return ("use-after-let-output", "a use of `%s` (holding %s) changed the output" % (info["name"], info["bound_kind"]))
         return None
     if kind in ("import-again", "unused-let", "hoist", "inline-all", "inline-one", "inline-drop", "outline",
-                "ns-import-let", "ns-let-import", "kinds-direct"):
+                "ns-import-let", "ns-let-import", "kinds-direct", "layout"):
         b = res["base"]
         if not same_outcome(v, b):
             return (kind + "-outcome", "outcome %s %s, the related program gives %s %s" % (v.status, v.kind, b.status, b.kind))
@@ -221,12 +265,18 @@ class Pool:
     def __init__(self, rng):
         self.rng = rng
         self.cases, self.byname, self.bytext, self.fams = [], {}, {}, []
+        self.stmts_of, self.layouts = {}, {}
 
-    def add(self, stmts):
-        """register a program; identical texts share one case.  Returns (name, lines)"""
+    def add(self, stmts, layout=None):
+        """register a program in a random (or the given) layout; identical texts share one case.
+        Returns (name, spans)"""
         rr = random.Random(self.rng.getrandbits(32))
-        text, lines = render(stmts, rr)
+        if layout is None:
+            layout = rr.choice(["lines", "lines", "lines", "one", "groups", "groups", "split", "split"])
+        text, lines = render(stmts, rr, layout)
+        self.layouts[layout] = self.layouts.get(layout, 0) + 1
         if text in self.bytext:
+            self.stmts_of[self.bytext[text]] = (stmts, layout)
             return self.bytext[text], lines
         c = Case()
         c.name = "c%d" % len(self.cases)
@@ -234,10 +284,22 @@ class Pool:
         self.cases.append(c)
         self.byname[c.name] = c
         self.bytext[text] = c.name
+        self.stmts_of[c.name] = (stmts, layout)
         return c.name, lines
 
     def fam(self, kind, info, **roles):
         self.fams.append(Fam(kind, info, roles))
+        # the same statement list in another layout: outcome, diagnostic kind and (partial) pcap must not depend on it
+        if kind in RELAYOUT and self.rng.random() < RELAYOUT[kind]:
+            stmts, lay = self.stmts_of[roles["variant"]]
+            for other in self.rng.sample([l for l in LAYOUTS if l != lay], 1 if kind != "import-late" else 2):
+                v2, _ = self.add(stmts, layout=other)
+                self.fams.append(Fam("layout", {"of": kind, "layouts": [lay, other]}, {"variant": v2, "base": roles["variant"]}))
+
+
+RELAYOUT = {"import-late": 1.0, "import-missing": 1.0, "use-before": 0.7, "ns-no-import": 0.7, "rebind": 0.12, "dup-let": 0.3,
+            "arg-fail": 0.3, "import-unknown": 0.5, "import-again": 0.3, "hoist": 0.3, "perm": 0.3, "kinds-direct": 1.0,
+            "ns-let-import": 0.3, "prefix": 0.08}
 
 
 PLAIN = [lambda r: INT(r.choice([0, 1, 7, 255, 65535, r.getrandbits(32)])), lambda r: BOOL(r.random() < 0.5),
@@ -1021,7 +1083,8 @@ def run(ctx):
     ok_cases = sum(1 for c in pool.cases if c.impl.status == "ok")
     err_cases = sum(1 for c in pool.cases if c.impl.status == "err")
     ctx.dist.update({
-        "programs_run": len(pool.cases), "relations_checked": per_kind, "relations_nontrivial": nontrivial,
+        "programs_run": len(pool.cases), "layouts_rendered": pool.layouts,
+        "layout_pairs_by_family": _hist(f.info["of"] for f in pool.fams if f.kind == "layout"), "relations_checked": per_kind, "relations_nontrivial": nontrivial,
         "impl_ok": ok_cases, "impl_err": err_cases,
         "nest_programs": len(nests), "nest_hoisted_calls_total": sum(x[3] for x in nests),
         "nest_stateful_nested_calls_total": sum(x[4] for x in nests),
